@@ -23,8 +23,11 @@ theorem restoreFile_logs (name : Path) (fi : Info) : Logs (restoreFile cfg name 
   apply Logs.bind (Logs.attempt (by
     apply Logs.bind ((hStat_ro cfg f).mono (fun _ h => RO.toOr h)); intro fi'
     apply Logs.bind (lexists_logs cfg .base name ((primCall_onSide cfg .base _).mono (fun _ h => OnSide.toOr h))); intro baseFi
-    apply Logs.bind (whenM_logs (primUnit_logs cfg .base _ ((primCall_onSide cfg .base _).mono (fun _ h => OnSide.toOr h)))); intro _
-    exact copyFile_logs cfg .base name fi f)); intro r
+    apply Logs.ite
+    · apply Logs.bind (primUnit_logs cfg .base _ ((primCall_onSide cfg .base _).mono (fun _ h => OnSide.toOr h))); intro _
+      exact copyFile_logs cfg .base name fi f
+    · apply Logs.bind (whenM_logs (primUnit_logs cfg .base _ ((primCall_onSide cfg .base _).mono (fun _ h => OnSide.toOr h)))); intro _
+      exact copyFile_logs cfg .base name fi f)); intro r
   apply Logs.bind (Logs.attempt ((hClose_ro f).mono (fun _ h => RO.toOr h))); intro _
   cases r with
   | ok u => exact Logs.pure _ _
